@@ -67,6 +67,9 @@ BASES = {
     'MLSDC': dict(_COMMON, sp='imex:heatf_per', L=2, QI='LU'),
     'PFASST': dict(_COMMON, sp='gi:heat1d_dir', L=2, P=3, QI='LU', predict='pfasst_burnin'),
     'MSSDC-GAUSS': dict(_COMMON, sp='imex:dahl_imex', quad_type='GAUSS', M=2, P=2, mssdc_jac=False),
+    # single-level Jacobi multi-step SDC: every step sweeps with the predecessor's value of the previous iteration
+    'MSSDC-JACOBI': dict(_COMMON, sp='gi:dahl3', M=2, P=3, mssdc_jac=True),
+    'MSSDC-JACOBI-1NODE': dict(_COMMON, sp='gi:dahl1', M=1, P=4, mssdc_jac=True),
 }
 
 
@@ -307,9 +310,17 @@ def run_case(arg):
             break
         U = np.array([flat(u) for u in r['u'][1:]])
         u0n = flat(r['u'][0])
-        defect = float(np.max(np.abs(step.defect(u0n, U, t_level))))
+        D = np.abs(step.defect(u0n, U, t_level))
+        defect = float(np.max(D))
         eps_n = RESTOL * (float(np.max(np.abs(u0n))) if rel else 1.0)
         met = bool(np.isfinite(defect) and defect <= eps_n)
+        # a step that stopped below the iteration budget was stopped by the tolerance: the defect (in the configured
+        # residual type) of the values it holds must then be at the tolerance (factor 2 and the rounding floor as margin
+        # for the difference between this oracle's Q and the library's)
+        used = float(np.max(D[-1])) if cfg['residual_type'].startswith('last') else defect
+        mag0 = max(1.0, float(np.max(np.abs(U))) if U.size else 1.0)
+        if r['iter'] < MAXITER and not used <= 2.0 * eps_n + C_FLOOR * oc.EPS * step.cond * mag0:
+            viol.append(({'kind': 'stopped_below_budget_with_defect_above_tolerance'}, {'step': n, 'iter': r['iter'], 'defect': used, 'tolerance': eps_n}))
         # oracle chain through its own end values
         Uref, end_ref = step.solve(ref_u0, r['time'])
         mag = max(1.0, float(np.max(np.abs(Uref))))
